@@ -47,6 +47,13 @@ json.dump({"comment": "reference accept conditions (function returns Ok) of fiel
           open(os.path.join(HERE, "spec", "accept_formulas.json"), "w"), indent=1)
 print("wrote", len(acc), "accept formulas")
 
+rj = accept.extract_rejects(F)
+json.dump({"comment": "reference: per MessageParser primitive and ParseError variant the condition under which it is returned",
+           "functions": {p: {nm: {"f": guards.to_json(f), "show": guards.show(f)[:1500]} for nm, f in sorted(by.items())}
+                         for p, (by, b) in sorted(rj.items())}},
+          open(os.path.join(HERE, "spec", "reject_formulas.json"), "w"), indent=1)
+print("wrote reject formulas of", len(rj), "functions")
+
 st = accept.extract_stores(F)
 json.dump({"comment": "reference of what each accepting exit of a parser delivers (component = expression over the input)",
            "functions": {p: sig for p, (sig, b) in sorted(st.items())}},
@@ -63,7 +70,8 @@ print("wrote", len(em), "emission templates")
 lay = grules.layouts(tms)
 json.dump({"comment": "reference layouts: per model struct the (tag, kind) sequence the parser reads; reviewed against "
                       "the message documentation in the repository",
-           "structs": {k: [[t, kk] for t, kk, ty in v] for k, v in sorted(lay.items())}},
+           "structs": {k: [[t, kk] for t, kk, ty in v] for k, v in sorted(lay.items())},
+           "types": {k: [ty for t, kk, ty in v] for k, v in sorted(lay.items())}},
           open(os.path.join(HERE, "spec", "layouts.json"), "w"), indent=1)
 print("wrote", len(lay), "layouts")
 
